@@ -20,7 +20,7 @@ for sid in sorted(os.listdir(os.path.join(ROOT, 'seeded'))):
             print(sid, 'PATCH DOES NOT APPLY', r.stdout[-200:], r.stderr[-200:]); bad += 1; continue
         out = {}
         for prop, want in exp.items():
-            p = subprocess.run([os.path.join(ROOT, 'check'), prop, '--no-evidence'], capture_output=True, text=True, env=dict(os.environ, VERIF_REPO=tmp))
+            p = subprocess.run([os.path.join(ROOT, 'check'), prop, '--no-evidence'], capture_output=True, text=True, env=dict(os.environ, VERIF_REPO=tmp, VERIF_NO_REPLAY_SEARCH='1'))
             first = (p.stdout.strip().splitlines() or [''])[0]
             out[prop] = (p.returncode, re.sub(r'replay=\S+', 'replay=…', first)[:150])
             if p.returncode != want: bad += 1
